@@ -19,7 +19,42 @@ H = 'akd_core::verify::history::'
 UP = 'proof.update_proofs'
 
 
+def marker_rules(ctx):
+    """decision predicates of get_marker_versions that bound the future marker list
+    by the epoch (values touched only through comparisons): a bit-completion
+    candidate is included iff candidate <= epoch; the power-of-two run is bounded
+    by log2(epoch) inclusive; the skiplist slice ends at the largest entry <= epoch"""
+    b = ctx.prog.one('akd_core::utils::get_marker_versions')
+    where = '%s:%s' % (b.file, b.line)
+    pushes = [(ev, c) for ev, c in find_events(b, 'Vec::push')]
+    d = decisions(b, lambda fc: fc[0] == 'rel' and fc[1] == 'le' and access_path(fc[3]) == 'epoch' and has_leaf(fc[2], 'end_version'))
+    ok = False
+    if d and d[0]['true'] is not None:
+        gated = [ev for ev, c in pushes if edge_dominates(b, (d[0]['block'], d[0]['true']), ev['pos'][0]) and arg(c, 1) == strip_mut(d[0]['cond'][2]) or
+                 (edge_dominates(b, (d[0]['block'], d[0]['true']), ev['pos'][0]) and has_leaf(arg(c, 1), 'end_version'))]
+        # the false side skips only this candidate (no break / return)
+        back = d[0]['false'] is not None and d[0]['block'] in b._reach_from(d[0]['false'])
+        ok = bool(gated) and back
+    ctx.ob('C07.MV.candidate_le_epoch', 'RF-GUARD', ok, b.path, where,
+           'a future bit-completion marker is required iff it is <= epoch, and a larger one only skips itself' if ok else
+           'the decision `future_version <= epoch => required marker` (skip only that candidate otherwise) changed', key='RF-GUARD|C07.MV.candidate')
+    rng = [c for ev in b.events() for c in ev['calls'] if isinstance(c, tuple) and c[0] == 'call' and call_is(c, 'into_iter') or False]
+    e = None
+    for pos, t in b.call_sites():
+        if (short(t.get('res') or t.get('fn')) or '').endswith('::next'):
+            it = b.expr_op(t['args'][0], pos)
+            x = strip_mut(it)
+            if x[0] == 'agg' and x[1] == 'Range' and has_call(dict(x[3])['end'], 'get_marker_version_log2') and has_leaf(dict(x[3])['end'], 'epoch'):
+                e = x
+    ok = e is not None and spec_match(dict(e[3])['end'], ('bin', 'Add', ('call', 'get_marker_version_log2', ['epoch']), ('const', 1))) and \
+        spec_match(dict(e[3])['start'], ('bin', 'Add', ('call', 'get_marker_version_log2', ['end_version']), ('const', 1)))
+    ctx.ob('C07.MV.pow2_range', 'RF-GUARD', ok, b.path, where,
+           'powers of two are required for exponents log2(end_version)+1 ..= log2(epoch)' if ok else
+           'the exponent range of required power-of-two markers changed: %s' % (show(e)[:160] if e else 'not found'), key='RF-GUARD|C07.MV.pow2')
+
+
 def run(ctx):
+    marker_rules(ctx)
     vh_rules(ctx)
     kh_rules(ctx)
     vs_rules(ctx, 'C07')
